@@ -118,13 +118,20 @@ SymW  == {Sy("in", "buy", 1, 0, p, 11, 0) : p \in 1..2} \cup {Sy("out", "sell", 
 InstW == InstC
 OffW  == OffC
 
-Symbols  == CASE Slice = "W" -> SymW [] Slice = "A" -> SymA [] Slice = "B" -> SymB [] Slice = "C" -> SymC [] Slice = "D" -> SymD
+(* P: holding periods on the boundary - one second before, on and after 1 day, 365 days and 366 days after an acquisition  *)
+(* (the span from 2019-03-01 contains 29 February 2020), written in three UTC offsets so that calendar dates disagree    *)
+(* with elapsed time                                                                                                      *)
+SymP  == {Sy("in", "buy", 1, 0, 1, 11, 0), Sy("in", "buy", 2, 0, 2, 11, 0), Sy("out", "sell", 1, 0, 3, 11, 0), Sy("out", "sell", All, 0, 3, 11, 0)}
+InstP == <<At(59, Noon), At(60, Noon - 1), At(60, Noon), At(60, Noon + 1),
+           At(424, Noon - 1), At(424, Noon), At(424, Noon + 1), At(425, Noon - 1), At(425, Noon), At(425, Noon + 1)>>
+
+Symbols  == CASE Slice = "P" -> SymP [] Slice = "W" -> SymW [] Slice = "A" -> SymA [] Slice = "B" -> SymB [] Slice = "C" -> SymC [] Slice = "D" -> SymD
               [] Slice = "T" -> SymT [] Slice = "M" -> SymM [] Slice = "Y" -> SymY [] Slice = "V" -> SymV
               [] Slice = "F" -> SymF [] Slice = "Z" -> SymZ
-Instants == CASE Slice = "W" -> InstW [] Slice = "A" -> InstA [] Slice = "B" -> InstB [] Slice = "C" -> InstC [] Slice = "D" -> InstD
+Instants == CASE Slice = "P" -> InstP [] Slice = "W" -> InstW [] Slice = "A" -> InstA [] Slice = "B" -> InstB [] Slice = "C" -> InstC [] Slice = "D" -> InstD
               [] Slice = "T" -> InstT [] Slice = "M" -> InstM [] Slice = "Y" -> InstY [] Slice = "V" -> InstV
               [] Slice = "F" -> InstF [] Slice = "Z" -> InstZ
-Offs     == IF Slice \in {"C", "W"} THEN OffC
+Offs     == IF Slice \in {"C", "W", "P"} THEN OffC
             ELSE IF Slice = "Z" THEN (IF hist = << >> THEN OffZ ELSE {hist[1].off})
             ELSE {0}
 
